@@ -311,6 +311,120 @@ def overlapping_saves(ctx, nodes: dict, workdir: str, index: int, yields: int, g
                                                       f"(differs at {diff})", case)
 
 
+def queued_saves_case(ctx, nodes: dict, workdir: str, index: int, n_saves: int, cancel: list[int]) -> None:
+    """Three or more save() calls in flight on one Persistence object, the registry growing before each; some of the later
+    ones are cancelled while they still wait their turn (a wait_for around save expiring).  Every save that RETURNED
+    normally was called with a registry the file must contain afterwards (the file holds the registry as of the last
+    write, which is at least what the last normally returned save was called with, and nothing that never existed)."""
+    from aiomysensors.model.node import Node
+    from aiomysensors.persistence import Persistence
+
+    from ..vloop import run_virtual
+
+    path = os.path.join(workdir, f"queued{index}.json")
+    case = {"origin": {"kind": "queued-saves", "index": index, "saves": n_saves, "cancel": cancel}, "registry": snap(nodes)}
+    state: dict = {"called_with": {}, "returned": []}
+
+    async def scenario() -> None:
+        import asyncio
+
+        persistence = Persistence(nodes, path)
+        free = [n for n in range(1, 255) if n not in nodes]
+        tasks = []
+        for k in range(n_saves):
+            nid = free[(index * 5 + k * 11) % len(free)]
+            nodes[nid] = Node(nid, 17, "2.2", sketch_name=f"before save {k}")
+            state["called_with"][k] = set(nodes)
+            tasks.append(asyncio.ensure_future(persistence.save()))
+            if k == 0:
+                await asyncio.sleep(0)  # the first save is inside its file operations when the others queue up
+        await asyncio.sleep(0)
+        for k in cancel:
+            tasks[k].cancel()
+        results = await asyncio.gather(*tasks, return_exceptions=True)
+        state["returned"] = [k for k, r in enumerate(results) if r is None]
+        state["errors"] = [f"{k}:{type(r).__name__}" for k, r in enumerate(results)
+                           if r is not None and not isinstance(r, asyncio.CancelledError)]
+        state["final"] = set(nodes)
+
+    result, _loop = run_virtual(scenario)
+    if isinstance(result, BaseException):
+        from ..harness import scenario_exception
+
+        scenario_exception(ctx, result, case, "queued-saves")
+        return
+    ctx.case(("queued", index, n_saves, tuple(cancel), json.dumps(case["registry"], sort_keys=True, default=str)), sample=None)
+    ctx.clause("queued-saves")
+    if state["errors"]:
+        ctx.violation("save-raises", f"queued saves raised {state['errors']}", case)
+        return
+    if not state["returned"]:
+        ctx.obs("queued-saves:none-returned")
+        return
+    loaded: dict = {}
+
+    async def load() -> None:
+        await Persistence(loaded, path).load()
+
+    try:
+        arun(load())
+    except Exception as exc:  # noqa: BLE001
+        ctx.violation("overlapping-saves-garble-file", f"{n_saves} queued saves (cancelled {cancel}) left a file load rejects: "
+                                                        f"{type(exc).__name__}: {exc!s:.100}", case)
+        return
+    must = state["called_with"][max(state["returned"])]
+    if not must <= set(loaded) or not set(loaded) <= state["final"]:
+        ctx.violation("overlapped-save-not-written", f"{n_saves} saves in flight, #{cancel} cancelled while waiting: save "
+                                                      f"#{max(state['returned'])} returned normally, it was called with nodes "
+                                                      f"{sorted(must)[-4:]}..., the file holds {sorted(loaded)[-4:]}...", case)
+
+
+def loosely_typed_registry(rng):
+    """A registry an application filled in by hand with the 'wrong' Python types in places where the file format wants
+    text or integers (a float temperature as value, the protocol version as float, a numeric sketch version ...)."""
+    from aiomysensors.model.node import Child, Node
+
+    nodes = {}
+    for nid in rng.sample(range(1, 200), rng.choice([1, 2, 4])):
+        children = {}
+        for cid in rng.sample(range(0, 50), rng.choice([1, 2])):
+            children[cid] = Child(cid, rng.choice([6, "6", 0]), description=rng.choice(["d", 42, 1.5, True]),
+                                  values={rng.choice([0, 2, 24]): rng.choice([21.5, 7, True, "21.5", 0, -3.25, 10**20])
+                                          for _ in range(rng.choice([1, 2]))})
+        nodes[nid] = Node(nid, rng.choice([17, "17", 18]), rng.choice([2.2, 2, "2.2", 1.5]), children=children,
+                          sketch_name=rng.choice(["s", 5, 2.5]), sketch_version=rng.choice(["1.0", 1.0, 3]),
+                          battery_level=rng.choice([55, "55", 99.0, True]), heartbeat=rng.choice([7, "7", 3.0]),
+                          sleeping=rng.choice([True, False, 1, 0]))
+    return nodes
+
+
+async def loosely_typed_case(ctx, nodes: dict, workdir: str, index: int) -> None:
+    """'A file written by save is always accepted by load' - also for registries the application filled in by hand with
+    loosely typed values: whatever save wrote for them, load must take it (the values come back as the file format's
+    types, so only acceptance and the keys are compared)."""
+    from aiomysensors.persistence import Persistence
+
+    path = os.path.join(workdir, "loose.json")
+    case = {"origin": {"kind": "loosely-typed", "index": index}, "registry": {k: repr(v) for k, v in nodes.items()}}
+    ctx.case(("loose", index, repr(sorted(case["registry"].items()))), sample=None)
+    try:
+        await Persistence(nodes, path).save()
+    except Exception as exc:  # noqa: BLE001 - the statement does not promise that such a registry can be saved
+        ctx.obs("loosely-typed:save-refused:" + type(exc).__name__)
+        return
+    ctx.clause("loosely-typed-saved-file-loads")
+    loaded: dict = {}
+    try:
+        await Persistence(loaded, path).load()
+    except Exception as exc:  # noqa: BLE001
+        ctx.violation("saved-file-rejected-by-load", f"save accepted a hand-filled registry with loosely typed values and wrote "
+                                                     f"a file load rejects: {type(exc).__name__}: {exc!s:.140}", case)
+        return
+    if sorted(loaded) != sorted(nodes) or any(sorted(loaded[n].children) != sorted(nodes[n].children) for n in nodes):
+        ctx.violation("roundtrip-differs", f"loosely typed registry: nodes / children after load {sorted(loaded)} differ from "
+                                           f"{sorted(nodes)}", case)
+
+
 def constructed(rng):
     from aiomysensors.model.node import Child, Node
 
@@ -377,6 +491,12 @@ def run(ctx) -> None:
             for i in range(ctx.pick(90, 3000) // ctx.shard_count + 2):
                 nodes = constructed(rng) if i % 3 else big_registry(rng, rng.choice([20, 120]), rng.choice([2, 10]), 2)
                 overlapping_saves(ctx, nodes, workdir, i, yields=i % 9, grow=rng.choice([1, 1, 2, 5]))
+            for i in range(ctx.pick(60, 2000) // ctx.shard_count + 2):
+                n_saves = 3 + i % 4
+                cancel = [[n_saves - 1], [n_saves - 1, n_saves - 2], [], [1], list(range(2, n_saves))][i % 5]
+                queued_saves_case(ctx, constructed(rng), workdir, i, n_saves, cancel)
+            for i in range(ctx.pick(80, 4000) // ctx.shard_count + 2):
+                arun(loosely_typed_case(ctx, loosely_typed_registry(rng), workdir, i))
             # scale: whole networks (up to 256 nodes x 40 children x 20 values: files of several MB)
             sizes = [(256, 3, 2), (40, 40, 5)] + ([(256, 40, 20), (100, 100, 10)] if not ctx.quick else [])
             for i, (n, c, v) in enumerate(sizes):
